@@ -11,6 +11,7 @@ GROUPS = [
          functions=['fiber_spinlock_trylock'], timeout=300),
     dict(name='unlock', tu='spinlock.c', harness='h_unlock', mode='D', enforce='fiber_spinlock_unlock',
          functions=['fiber_spinlock_unlock'], timeout=300),
+    dict(name='init', tu='spinlock.c', harness='h_init', mode='H', functions=['fiber_spinlock_init'], unwind=2, exact_unwind=True),
     dict(name='lemmas', tu='lemmas.c', kind='lemmas', harness='', timeout=120, no_native='pure lemma'),
 ]
 ASSUMPTIONS = [
